@@ -129,8 +129,12 @@ func init() {
 		sort.Strings(out)
 		return jsonOf(out)
 	}
-	d["SchemasWithAllOf"] = func(an *analysis.Spec, _ *spec.Swagger, _ []string) string { return schemaRefsDump(an.SchemasWithAllOf()) }
-	d["AllDefinitions"] = func(an *analysis.Spec, _ *spec.Swagger, _ []string) string { return schemaRefsDump(an.AllDefinitions()) }
+	d["SchemasWithAllOf"] = func(an *analysis.Spec, _ *spec.Swagger, _ []string) string {
+		return schemaRefsDump(an.SchemasWithAllOf())
+	}
+	d["AllDefinitions"] = func(an *analysis.Spec, _ *spec.Swagger, _ []string) string {
+		return schemaRefsDump(an.AllDefinitions())
+	}
 	smap := func(f func(an *analysis.Spec) map[string]string) func(*analysis.Spec, *spec.Swagger, []string) string {
 		return func(an *analysis.Spec, _ *spec.Swagger, _ []string) string { return jsonOf(f(an)) }
 	}
